@@ -403,7 +403,6 @@ func c15ModelMismatch(g *gen.G, format string, a ...any) {
 	os.Exit(3)
 }
 
-
 // TestC15_Frequencies: a coarse, deterministic statistical net under the exact counting argument of the in-package
 // part (which assumes the documented read pattern and reports "tape model does not apply" for any other algorithm,
 // uniform or not).  For a fixed ChaCha20 stream, N draws of UintN(n) must give every value a count within seven standard
